@@ -18,3 +18,9 @@ claim("C13",
       "Decides, for every function of the upgrade package including each generic instantiation, that no map store can hit a nil map, no possibly-nil map value enters the document, no single-result type assertion / explicit panic / unchecked index exists, that every error return of the upgrade hands back the original bytes, and that the step table is complete, indexed only after version validation, and that slot i stamps version i+1 on every successful path. "
       "These are the structural necessary conditions of 'never panics', 'fails leaving the content unchanged' and 'stamped with the current schema version' over all YAML inputs; path independence, idempotence, preservation of unrelated settings and loader acceptance are value-level and not decided.",
       "DESIGN.md §5 C13")
+
+claim("C10",
+      "persist-after-mutate must-reach analysis with caller propagation + typestate (provenance) of registered leases + sibling agreement of table writers + validation path guards on SSA (static analysis)",
+      "Decides that every instruction that changes the DHCPv4 lease table or a registered lease is followed, on every path to a successful return of its outermost entry point, by the database-store notification (so the file lists the leases in memory), that a lease obtained from the allocator or the table is never registered a second time (no duplicate entries in the list, the API or the file), that the lease list, both indexes and the pool-offset set are always changed together, and that static-lease insertion is reached only after the validation calls succeeded. "
+      "These are structural necessary conditions of 'the lease database lists exactly the leases in memory, each once'; address/client uniqueness over message histories, pool exhaustion, expiry and matching logic inside the mutators are value-level and not decided.",
+      "DESIGN.md §5 C10")
